@@ -117,4 +117,99 @@ theorem writeBlocks_fault (d : Durable) (l : Log) (ids : List Nat) (k : FaultKin
       · cases k <;> simp [fileWrite, h0]
       · intro g dd; cases k <;> simp [dbUpdate, h1]
 
+
+/-- The same for the filter-header store. -/
+theorem writeFilters_fault (d : Durable) (l : Log) (fids : List Nat) (last : Nat) (k : FaultKind) (fs a : Nat)
+    (hrep : Rep d l) (hroom : l.filters.length + fids.length ≤ l.blocks.length)
+    (hlast : fids ≠ [] → l.blocks[l.filters.length - 1 + fids.length]? = some last) :
+    let r := (writeFilters fids last { d := d, inj := .fault k fs a }).fin
+    (r.2 = .err ∧ r.1 = d) ∨ (r.2 = .ok ∧ Rep r.1 { l with filters := l.filters ++ fids }) := by
+  have hw := width_pos .F
+  intro r
+  by_cases he : fids.isEmpty = true
+  · right
+    have : fids = [] := by simpa using he
+    subst this
+    simp only [r, writeFilters, List.isEmpty_nil, ↓reduceIte, R.fin, List.append_nil, true_and]
+    exact hrep
+  have hne : fids ≠ [] := by intro hc; subst hc; simp at he
+  have hl0 : ¬ (fids.length = 0) := fun hc => hne (List.eq_nil_of_length_eq_zero hc)
+  have hdf : ({ bf := d.bf, ff := { ents := l.filters }, db := d.db } : Durable) = d := by
+    cases hd : d with
+    | mk bf ff db => have := hrep.fents; simp [hd] at this; simp [this]
+  have hok : ∀ (inj : Inj),
+      fileWrite .F fids { d := d, inj := inj } =
+        .ok none { d := d.setFile .F ((d.file .F).appendAll (width .F) fids), step := 1, inj := inj } →
+      (∀ g dd, dbUpdate g { d := dd, step := 1, inj := inj } =
+        .ok true { d := { dd with db := g dd.db }, step := 2, inj := inj }) →
+      ((writeFilters fids last { d := d, inj := inj }).fin.2 = .ok ∧
+        Rep (writeFilters fids last { d := d, inj := inj }).fin.1 { l with filters := l.filters ++ fids }) := by
+    intro inj hW hU
+    unfold writeFilters appendRaw
+    simp only [he, Bool.false_eq_true, ↓reduceIte]
+    rw [hW]
+    simp only [R.bind, Durable.file, Durable.setFile, hrep.fents, appendAll_clean _ _ _ hw, Bool.not_true,
+      Bool.false_eq_true, ↓reduceIte]
+    rw [hU]
+    simp only [R.bind, ↓reduceIte, R.fin, true_and]
+    exact rep_append_filters hrep hne hroom (hlast hne)
+  by_cases h0 : fs = 0
+  · subst h0
+    cases k with
+    | shortwrite =>
+      left
+      simp only [r, writeFilters, he, Bool.false_eq_true, ↓reduceIte, appendRaw, fileWrite, R.bind]
+      by_cases hn : (if a ≥ fids.length * width .F then fids.length * width .F - 1 else a) > 0
+      · simp only [hn, ↓reduceIte, fileTruncate]
+        have : ¬ ((0 : Nat) = 0 + 1) := by omega
+        simp only [this, ↓reduceIte, R.bind, Bool.not_false, R.fin, Durable.file, setFile_setFile, true_and]
+        exact setFile_file d .F |> fun h => by simpa [Durable.file] using h
+      · simp only [hn, ↓reduceIte, Bool.not_false, R.fin, true_and]
+        have hz : (if a ≥ fids.length * width .F then fids.length * width .F - 1 else a) = 0 := by omega
+        rw [hz]
+        simp only [FileSt.appendBytes, Nat.zero_div, Nat.zero_mod, Nat.zero_min]
+        have hj : (d.file .F).junk = 0 := by simp [Durable.file, hrep.fents]
+        simp only [hj, ↓reduceIte, List.take_zero, List.append_nil]
+        have : (if 0 < fids.length then 0 else 0) = 0 := by split <;> rfl
+        simp only [this]
+        have : ({ (d.file .F) with ents := (d.file .F).ents, junk := 0 } : FileSt) = d.file .F := by
+          cases hf : d.file .F with
+          | mk e j c => simp [hf] at hj; simp [hj]
+        rw [this]; exact setFile_file d .F
+    | writeerr =>
+      left
+      simp only [r, writeFilters, he, Bool.false_eq_true, ↓reduceIte, appendRaw, fileWrite, R.bind, Nat.lt_irrefl,
+        gt_iff_lt, Bool.not_false, R.fin, and_self]
+    | truncerr => right; exact hok _ (by simp [fileWrite]) (by intro g dd; simp [dbUpdate])
+    | dberr => right; exact hok _ (by simp [fileWrite]) (by intro g dd; simp [dbUpdate])
+  · by_cases h1 : fs = 1
+    · subst h1
+      cases k with
+      | dberr =>
+        left
+        have hq : ({ d := d, inj := Inj.fault .dberr 1 a } : Ctx).inj.firesAt 0 = false := rfl
+        simp only [r]
+        unfold writeFilters appendRaw
+        simp only [he, Bool.false_eq_true, ↓reduceIte]
+        rw [fileWrite_quiet _ _ _ hq]
+        simp only [R.bind, Durable.file, Durable.setFile, hrep.fents, appendAll_clean _ _ _ hw, Bool.not_true,
+          Bool.false_eq_true, ↓reduceIte, dbUpdate, Nat.zero_add, truncateHeaders]
+        simp only [hl0, ↓reduceIte, fileTruncate]
+        have : ¬ ((1 : Nat) = 0 + 1 + 1) := by omega
+        simp only [this, ↓reduceIte, Durable.file, FileSt.truncateBy, FileSt.size, List.length_append]
+        have a1 : ¬ (fids.length * width .F > (l.filters.length + fids.length) * width .F + 0) := by
+          have : fids.length * width .F ≤ (l.filters.length + fids.length) * width .F :=
+            Nat.mul_le_mul_right _ (by omega)
+          omega
+        have a2 : fids.length ≤ l.filters.length + fids.length := by omega
+        simp only [a1, a2, ↓reduceIte, Nat.add_sub_cancel, List.take_left', R.bind, R.fin, Durable.setFile, true_and]
+        exact hdf
+      | shortwrite => right; exact hok _ (by simp [fileWrite]) (by intro g dd; simp [dbUpdate])
+      | writeerr => right; exact hok _ (by simp [fileWrite]) (by intro g dd; simp [dbUpdate])
+      | truncerr => right; exact hok _ (by simp [fileWrite]) (by intro g dd; simp [dbUpdate])
+    · right
+      refine hok _ ?_ ?_
+      · cases k <;> simp [fileWrite, h0]
+      · intro g dd; cases k <;> simp [dbUpdate, h1]
+
 end Neutrino.Store
